@@ -69,6 +69,28 @@ pub struct Sigs {
     pub htlc: Vec<Signature>,
 }
 
+/// Deep-index exploration: the counterparty side starts after BASE honest commitment cycles
+/// (SignCp 0..=BASE, ValidateRevocation 0..=BASE-2, all tree A / content A), so that the
+/// explored numbers straddle BASE.  0 (default): start at the beginning.
+pub static BASE: std::sync::atomic::AtomicU64 = std::sync::atomic::AtomicU64::new(0);
+pub fn base() -> u64 {
+    BASE.load(std::sync::atomic::Ordering::Relaxed)
+}
+
+fn tree_names(nmax: u64) -> &'static HashMap<Vec<u8>, (&'static str, u64)> {
+    static T: std::sync::OnceLock<HashMap<Vec<u8>, (&'static str, u64)>> = std::sync::OnceLock::new();
+    T.get_or_init(|| {
+        let mut m = HashMap::new();
+        for t in ["A", "B"] {
+            for k in 0..=base() + nmax + 4 {
+                m.insert(tree_point(&tree_of(t), k).serialize().to_vec(), (t, k));
+                m.insert(tree_secret(&tree_of(t), k).secret_bytes().to_vec(), (t, k));
+            }
+        }
+        m
+    })
+}
+
 pub struct Ctx {
     pub fx: NodeFx,
     pub id: ChannelId,
@@ -102,6 +124,17 @@ impl Ctx {
                 ctx.cc = Some(cc);
                 if precompute {
                     ctx.precompute_sigs();
+                }
+                for n in 0..=base() {
+                    if base() == 0 {
+                        break;
+                    }
+                    let r = ctx.apply(&json!({"op": "SignCp", "n": n, "t": "A", "c": "A"}));
+                    assert!(r["ok"] == true, "honest prefix SignCp({}) refused: {}", n, r);
+                    if n >= 1 && n - 1 + 2 <= base() {
+                        let r = ctx.apply(&json!({"op": "ValidateRevocation", "n": n - 1, "t": "A", "m": n - 1}));
+                        assert!(r["ok"] == true, "honest prefix ValidateRevocation({}) refused: {}", n - 1, r);
+                    }
                 }
             }
         });
@@ -398,14 +431,10 @@ pub fn point_name(p: &Option<PublicKey>, nmax: u64) -> Value {
     match p {
         None => json!({"t": "none", "n": -1}),
         Some(p) => {
-            for t in ["A", "B"] {
-                for k in 0..=nmax + 4 {
-                    if tree_point(&tree_of(t), k) == *p {
-                        return json!({"t": t, "n": k});
-                    }
-                }
+            match tree_names(nmax).get(&p.serialize().to_vec()) {
+                Some((t, k)) => json!({"t": t, "n": k}),
+                None => json!({"t": "?", "n": -2}),
             }
-            json!({"t": "?", "n": -2})
         }
     }
 }
@@ -428,12 +457,11 @@ pub fn project(s: &Snap, nmax: u64) -> Value {
                     };
                     let idx = e[1].as_u64().unwrap();
                     let n = INITIAL_COMMITMENT_NUMBER - idx;
-                    let mut t = "?";
-                    for tn in ["A", "B"] {
-                        if n <= nmax + 4 && tree_secret(&tree_of(tn), n).secret_bytes()[..] == bytes[..] {
-                            t = tn;
-                        }
-                    }
+                    // a stored secret is named by the tree AND number it is the secret of
+                    let t = match tree_names(nmax).get(&bytes) {
+                        Some((tn, k)) if *k == n => *tn,
+                        _ => "?",
+                    };
                     sec.push(json!({"t": t, "n": n}));
                 }
             }
